@@ -1128,6 +1128,23 @@ Proof.
   rewrite (H x (or_introl eq_refl)). apply IH. intros; apply H; right; assumption.
 Qed.
 
+Definition r_stats_of (s : mstate) : N * N * N := (s_nins s, s_nupd s, s_ndel s).
+Definition result_of (st : msettings) (tgt : itable) (s : mstate) : mresult + merr :=
+  if full_schema st
+  then inl {| r_rows := map snd (filter (fun it => negb (mem_addr (fst it) (s_del s))) tgt)
+                        ++ map (fun u => widen st (snd u)) (s_upd s) ++ map (widen st) (s_insr s);
+              r_stats := r_stats_of s |}
+  else inl {| r_rows := map (fun it => match find_upd (fst it) (s_upd s) with
+                                       | Some u => upd_row st u (snd it)
+                                       | None => snd it end) tgt
+                        ++ map (widen st) (s_insr s);
+              r_stats := r_stats_of s |}.
+
+Lemma upd_of_final st tgt src : s_upd (final_state st tgt src) = updates st tgt src.
+Proof. reflexivity. Qed.
+Lemma insr_of_final st tgt src : s_insr (final_state st tgt src) = sql_inserted st (map snd tgt) src.
+Proof. reflexivity. Qed.
+
 Section MergeFinal.
   Variable st : msettings.
   Variable tgt : itable.
@@ -1221,8 +1238,8 @@ Section MergeFinal.
     intro OK. unfold sql_merge. destruct (spec_no_error OK) as [NF NA]. rewrite NF, NA.
     unfold result_of. destruct (full_schema st) eqn:FS; cbn [mres_equiv r_rows r_stats]; (split; [|apply (stats_ok OK)]).
     - (* RewriteRows *)
+      rewrite upd_of_final, insr_of_final.
       rewrite app_assoc. apply Permutation_app; [|apply Permutation_refl].
-      unfold final_state at 2, st_del, st_ins, st_upd, mstate0. cbn [s_upd app].
       rewrite flat_map_map.
       rewrite (map_as_flat_map snd), (filter_as_flat_map _ tgt), flat_map_concat_map, <- flat_map_concat_map.
       assert (E1 : flat_map (fun x => [snd x]) (flat_map (fun x => if negb (mem_addr (fst x) (s_del (final_state st tgt src))) then [x] else []) tgt)
@@ -1235,8 +1252,8 @@ Section MergeFinal.
       intros it Hit. cbn beta. rewrite <- (kept_pointwise it OK Hit). f_equal.
       rewrite map_map. cbn [snd]. apply map_ext. intro s. symmetry. apply upd_row_full. exact FS.
     - (* RewriteColumns *)
+      rewrite upd_of_final, insr_of_final.
       apply Permutation_app; [|apply Permutation_refl].
-      unfold final_state, st_del, st_ins, st_upd, mstate0. cbn [s_upd app].
       rewrite flat_map_map, map_as_flat_map.
       erewrite flat_map_ext_in; [apply Permutation_refl|].
       intros it Hit. cbn beta. rewrite (find_updates st src tgt it ND Hit), (fate_ok it OK Hit). destruct (OK it Hit) as [L _].
